@@ -86,6 +86,15 @@ def noise_overlay(rng, plan, spec, tids):
                                                   '80 81 c3 0a']).replace(
                                                       ' ', '')
                 acts.append(act)
+            if rng.random() < 0.25:
+                # something that writes to the real stderr when the
+                # interpreter shuts down, i.e. after a layer subprocess has
+                # sent its report (lines that look like a report header
+                # included: nothing behind the report is part of it)
+                acts.append({'ph': 'body', 'do': 'atexit_write',
+                             'text': rng.choice(['late line\n', 'bye\nbye\n',
+                                                 '7 0 0\n', '0 0 0\n',
+                                                 'a b c\n', '1 1 1\nx\n'])})
             p.setdefault('tests', {}).setdefault(tid, {})['actions'] = acts
     for ls in spec['layers']:
         if rng.random() < 0.5:
@@ -343,6 +352,8 @@ def run_case(case):
                     pn = noise_overlay(rng, p, spec, tids)
                     wn = common.run_world(spec, pn, o, root=root)
                     C('noise_pairs')
+                    C('late_stderr_writers', sum(
+                        1 for e in wn.events if e['k'] == 'atexit.registered'))
                     if wn.raised is not None:
                         V('run-aborted-under-noise', 'run-raised', mode=mode,
                           tb=(wn.raised_tb or '')[-700:])
